@@ -2,7 +2,6 @@
 MC ShmMutex.tla (safety + liveness) + SCHED replay of TLC's schedules on the real futex mutex
 (DESIGN §5 C43)."""
 import afc_util
-import pathcover
 import verif
 
 META = {
@@ -16,14 +15,8 @@ META = {
 ACTIONS = ["cas1", "spin", "scas", "swp", "fw", "slp", "cs", "cs2", "unl", "wk"]
 
 
-def behaviours(g, paths, rounds):
-    n = len(g.state(g.init[0])["pc"])
-    out = []
-    for p in paths:
-        steps = [{"a": a, "t": args[0], "key": s["key"], "pc": s["pc"], "sl": s["sleepers"], "wk": s["wakeTok"]}
-                 for a, args, s in g.steps(p)]
-        out.append({"threads": n, "rounds": rounds, "steps": steps})
-    return out
+def project(a, args, s):
+    return {"a": a, "t": args[0], "key": s["key"], "pc": s["pc"], "sl": s["sleepers"], "wk": s["wakeTok"]}
 
 
 def run(ctx):
@@ -34,10 +27,10 @@ def run(ctx):
 
     # 1. design level: safety + liveness
     cfg = "MC_ShmMutex_thorough.cfg" if ctx.thorough else "MC_ShmMutex.cfg"
-    r = ctx.tlc("ShmMutex", cfg, timeout=2400)
+    r = ctx.tlc("ShmMutex", cfg, timeout=2400, cache=True)
     ctx.require_actions(r, ACTIONS)
     if ctx.thorough:
-        ctx.tlc("ShmMutex", "MC_ShmMutex_spur.cfg", timeout=1200)
+        ctx.tlc("ShmMutex", "MC_ShmMutex_spur.cfg", timeout=1200, cache=True)
     # 2. the liveness half is not vacuous: the spec-level lost-wake-up mutant must be rejected
     rm = ctx.tlc("ShmMutex", "MC_ShmMutex_mutant.cfg", allow_violation=True, timeout=600)
     if not rm.violated:
@@ -47,33 +40,35 @@ def run(ctx):
     total = 0
     results = []
     cover_info = {}
-    for gcfg, rounds, cap in (("MC_ShmMutex_g2.cfg", 2, None), ("MC_ShmMutex_g3.cfg", 1, 2500)):
-        rg, g = afc_util.dump_graph(ctx, "ShmMutex", gcfg, timeout=1200)
-        paths = afc_util.cover(ctx, g)
-        npaths = len(paths)
+    for gcfg, rounds, cap in (("MC_ShmMutex_g2.cfg", 2, None), ("MC_ShmMutex_g3.cfg", 1, 5000)):
+        info, steps = afc_util.schedules(ctx, "ShmMutex", gcfg, project, timeout=1200)
+        afc_util.require_graph_actions(info, ACTIONS)
+        n = len(info["init"]["pc"])
+        beh = [{"threads": n, "rounds": rounds, "steps": st} for st in steps]
+        npaths = len(beh)
         if cap and not ctx.thorough and npaths > cap:
-            paths = verif.sample(ctx.rng, paths, cap)
-        cov = pathcover.coverage(g, paths)
-        beh = behaviours(g, paths, rounds)
-        res = ctx.run_engine(vh, "mutex", beh, tag="mutex-" + gcfg[11:-4])
-        if len(res) != len(beh):
-            raise verif.ToolError("engine returned %d results for %d schedules" % (len(res), len(beh)))
+            beh = verif.sample(ctx.rng, beh, cap)
+        res = afc_util.replay(ctx, vh, "mutex", beh, tag="mutex-" + gcfg[11:-4])
         ctx.absorb(res)
         results += res
         total += len(beh)
-        cover_info[gcfg] = {"states": g.nstates, "transitions": len(g.edges), "cover_paths": npaths,
-                            "replayed": len(beh), "transitions_replayed": cov[0]}
+        cover_info[gcfg] = {"states": info["states"], "transitions": info["transitions"], "cover_paths": npaths,
+                            "replayed": len(beh)}
         if gcfg.endswith("g2.cfg"):
             g2beh = beh
     # 4. random complete behaviours of 3 threads x 2 rounds (simulation mode)
     nsim = 1500 if ctx.thorough else 150
-    rs = ctx.tlc("ShmMutexSim", "Sim_ShmMutex.cfg", simulate=nsim, depth=600, workers=2, timeout=900)
+    rs = ctx.tlc("ShmMutexSim", "Sim_ShmMutex.cfg", simulate=nsim, depth=600, workers=2, timeout=900, cache=True)
     if not rs.replays:
         raise verif.ToolError("TLC simulation emitted no behaviours")
     res = ctx.run_engine(vh, "mutex", rs.replays, tag="mutex-sim")
     ctx.absorb(res)
     results += res
 
+    if ctx.nviol:
+        # self-tests use the recorded results of this run; with violations present they prove nothing
+        ctx.cov["selftests"] = ["skipped: the run found violations"]
+        return
     # 5. binding self-tests: a swallowed wake-up and a skipped lock must be reported
     with_wk = [b for b in g2beh if any(s["a"] == "wk" and s["wk"] for s in b["steps"])][:40]
     st = ctx.run_engine(vh, "mutex", with_wk, opts={"selftest": "nowake"}, tag="selftest-nowake")
